@@ -670,3 +670,54 @@ func VerifC13_equalcallbacks() {
 	vfObserveInt("n1", cb1.n)
 	vfObserveInt("n2", cb2.n)
 }
+
+// VerifC13_passes: two render passes with a registration in between: a callback registered on an
+// owner itself (the table, a column that has or has not one already) after the first pass fires once in
+// the second, exactly as one registered before the first; the earlier one fires once per pass.
+func VerifC13_passes() {
+	var log []vfEv
+	t := New()
+	t.AddRowItems("a", "b")
+	t.AddRowItems("c", "d")
+	// the pass runs an owner's own callbacks before and after the cells (the two times the pass
+	// documents for tables and columns themselves)
+	times := []callbackTime{CB_AT_RENDER_PRECELL, CB_AT_RENDER_POSTCELL}
+	owners := []PropertyOwner{t.Column(1), t.Column(2), t}
+	e := vfChoice("early-owner", 4) // 3: none
+	early := &vfRecCB{id: 1, log: &log, key: &vfKeyT13{41}}
+	earlyOK := false
+	if e < 3 {
+		earlyOK = t.RegisterPropertyCallback(owners[e], times[vfChoice("early-when", 2)], CB_ON_ITSELF, early) == nil
+	}
+	t.InvokeRenderCallbacks()
+	n1 := len(log)
+	if earlyOK {
+		vfAssert(n1 == 1, "render-callbacks-once-per-pass")
+	} else {
+		vfAssert(n1 == 0, "render-callbacks-once-per-pass")
+	}
+	if vfChoice("grow-between", 2) == 1 {
+		t.AddRowItems("e")
+	}
+	l := vfChoice("late-owner", 3)
+	late := &vfRecCB{id: 2, log: &log, key: &vfKeyT13{42}}
+	lateOK := t.RegisterPropertyCallback(owners[l], times[vfChoice("late-when", 2)], CB_ON_ITSELF, late) == nil
+	t.InvokeRenderCallbacks()
+	nEarly, nLate := 0, 0
+	for _, ev := range log[n1:] {
+		if ev.id == 1 {
+			nEarly++
+			vfAssert(ev.po == owners[e], "callbacks-live-object")
+		} else {
+			nLate++
+			vfAssert(ev.po == owners[l], "callbacks-live-object")
+		}
+	}
+	if earlyOK {
+		vfAssert(nEarly == 1, "render-callbacks-once-per-pass")
+	}
+	if lateOK {
+		vfAssert(nLate == 1, "callback-registered-between-passes-fires-in-the-next")
+		vfAssert(owners[l].GetProperty(late.key) == 1, "property-set-by-callback-visible")
+	}
+}
